@@ -84,6 +84,9 @@ struct RunLite {
     faults: u64,
 }
 
+/// runs in which the harness itself panicked (profile and run index)
+static HARNESS_PANICS: Mutex<Vec<String>> = Mutex::new(Vec::new());
+
 pub fn jobs() -> usize {
     std::env::var("VERIF_JOBS").ok().and_then(|s| s.parse().ok()).unwrap_or_else(|| std::thread::available_parallelism().map(|n| n.get()).unwrap_or(8))
 }
@@ -132,7 +135,17 @@ fn run_part(ctx: &GenCtx, profile: &'static str, n: u64, deadline: Option<Instan
                                 }
                             }
                         } else {
-                            run_plan(&plan, false)
+                            // a panic of the harness itself (model, interpreter) in one run must not take the other
+                            // runs' verdicts with it: the run is recorded as a harness error (exit 2 unless a
+                            // violation is reported, which takes precedence)
+                            match std::panic::catch_unwind(std::panic::AssertUnwindSafe(|| run_plan(&plan, false))) {
+                                Ok(r) => r,
+                                Err(_) => {
+                                    HARNESS_PANICS.lock().unwrap().push(format!("{} run {}", profile, i));
+                                    crate::model::clear_tree_cache();
+                                    continue;
+                                }
+                            }
                         };
                         stats.merge(&rep.stats);
                         local.push(RunLite {
@@ -369,6 +382,14 @@ pub fn run_check(spec: &CheckSpec, tier: &str, seed: u64) -> i32 {
     // 4. minimise and report new violations
     let mut violation_lines = 0;
     let mut harness_error = false;
+    {
+        let hp = HARNESS_PANICS.lock().unwrap();
+        if !hp.is_empty() {
+            eprintln!("HARNESS ERROR: the harness itself panicked in {} run(s) (first: {}); reproduce with `hss-sim plan <profile> <run>`", hp.len(), hp[0]);
+            println!("HARNESS ERROR: the harness itself panicked in {} run(s) (first: {})", hp.len(), hp[0]);
+            harness_error = true;
+        }
+    }
     let replays = out_dir().join("replays");
     let max_groups = 4;
     for (gi, (key, hits)) in fresh.iter().enumerate() {
